@@ -61,7 +61,8 @@ def check(prog: Program, tier: str) -> Result:
     _r17_7(prog, res)
     _r17_8(prog, res)
     _r17_9(prog, res)
-    res.floors.update({"R17.9": 3, "R17.1": 12, "R17.2": 10, "R17.3": 4, "R17.4": 40, "R17.5": 6, "R17.6": 4, "R17.7": 2, "R17.8": 1})
+    _r17_10(prog, res)
+    res.floors.update({"R17.10": 3, "R17.9": 3, "R17.1": 12, "R17.2": 10, "R17.3": 4, "R17.4": 40, "R17.5": 6, "R17.6": 4, "R17.7": 2, "R17.8": 1})
     res.analysed["bound_claims"] = n_claims
     return res
 
@@ -150,6 +151,113 @@ def _reader_obligation(prog: Program, res: Result, fn: Func, sub: ast.Subscript)
     res.decide(single, "R17.1", fn.loc(ctor), fn.fq, f"single-operator restriction for {src}",
                "the comparison is selected by a template with exactly one operator/comparator" if single else
                "no template restricts the negated comparison to a single operator: `a < b < c` would become `a >= b >= c`")
+
+
+# ------------------------------------------------------------------------------------------------ R17.10
+def _r17_10(prog: Program, res: Result) -> None:
+    """`a and b` is not a truth value: it is a if a is falsy, else b; `a or b` is a if a is truthy, else b.  Replacing an
+    and/or expression by the literal True / False is only an equivalence where nothing but its truth is looked at (the test of
+    an if / while / conditional expression / comprehension filter / assert, the operand of `not`).  `y = x or "default"` is the
+    everyday counter-example: the value is x or the string, never True.  Instance: every yield in a rewrite rule that
+    replaces the and/or node it iterates over by ast.Constant(value=True/False); obligation: the path carries a test of the
+    node's syntactic context (a repository predicate over the node that looks at if / while tests)."""
+    from ..pathcond import PathAnalysis, plain
+    n = 0
+    for fn in prog.funcs.values():
+        if not fn.is_fix:
+            continue
+        for lp in walk_own(fn.node):
+            if not (isinstance(lp, ast.For) and isinstance(lp.target, ast.Name) and isinstance(lp.iter, ast.Call)
+                    and (prog.dotted(lp.iter.func) or "").split(".")[-1] in ("walk", "filter_nodes") and len(lp.iter.args) >= 2
+                    and "BoolOp" in norm(lp.iter.args[1]) and "UnaryOp" not in norm(lp.iter.args[1])):
+                continue
+            v = lp.target.id
+            pa = None
+            for y in ast.walk(lp):
+                if not (isinstance(y, ast.Yield) and isinstance(y.value, ast.Tuple) and len(y.value.elts) >= 2 and isinstance(y.value.elts[0], ast.Name) and y.value.elts[0].id == v):
+                    continue
+                new = y.value.elts[1]
+                lit = isinstance(new, ast.Call) and ast_class_name(prog, fn, new.func) == "Constant" and any(
+                    k.arg == "value" and isinstance(k.value, ast.Constant) and isinstance(k.value.value, bool) for k in new.keywords)
+                if not lit:
+                    continue
+                n += 1
+                pa = pa or PathAnalysis(prog, fn)
+                ctx = False
+                worlds = pa.worlds_at(y)
+                for c in ast.walk(fn.node):
+                    if isinstance(c, ast.Call) and c.args and isinstance(c.args[0], ast.Name) and c.args[0].id == v:
+                        r = prog.resolve_call(c.func, fn.mod, fn)
+                        if r and r[0] == "fn" and ".test" in norm(r[1].node) and ("ast.If" in norm(r[1].node) or "ast.While" in norm(r[1].node)):
+                            from ..pathcond import entails
+                            if worlds and all(entails(w.facts, pa.formula(c, w)) for w in worlds):
+                                ctx = True
+                conds = _conds_of_17(y, lp)
+                litval = next(k.value.value for k in new.keywords if k.arg == "value")
+                # every operand IS that literal: `True and True` is True (the filtered operand list is empty)
+                all_literal = False
+                from ..defuse import bindings as _bd
+                for nm, defs in _bd(fn).items():
+                    for _s, d in defs:
+                        if isinstance(d, ast.ListComp) and len(d.generators) == 1 and norm(d.generators[0].iter) == f"{v}.values" and len(d.generators[0].ifs) == 1:
+                            cond = d.generators[0].ifs[0]
+                            if isinstance(cond, ast.UnaryOp) and isinstance(cond.op, ast.Not) and isinstance(cond.operand, ast.Call) \
+                                    and norm(cond.operand.func).endswith("match_template") and len(cond.operand.args) == 2 \
+                                    and norm(cond.operand.args[1]).replace(" ", "") == f"ast.Constant(value={litval})" and _s in list(ast.walk(lp)):
+                                test = ast.Name(id=nm, ctx=ast.Load())
+                                ast.copy_location(test, y)
+                                if worlds and all(_entails17(w, pa, test) for w in worlds) and _latest_def_is(fn, nm, _s, y):
+                                    all_literal = True
+                # the site is identified by WHAT IS KNOWN on its path (a digest of the path condition with local names blanked): stable
+                # under renaming and under rewriting the ifs around it, different for each of the folding sites
+                import hashlib
+                import re as _re
+                from ..report import LOCAL_NAMES
+                locs = LOCAL_NAMES.get(fn.fq, set())
+                fact_texts = set()
+                for w in worlds:
+                    for f_ in w.facts:
+                        if f_[0] == "lit":
+                            t_ = _re.sub(r"[A-Za-z_]\w*", lambda m_: "$" if m_.group(0) in locs else m_.group(0), plain(f_[1]))
+                            fact_texts.add(("+" if f_[2] else "-") + t_.replace(" ", ""))
+                digest = hashlib.sha1("|".join(sorted(fact_texts)).encode()).hexdigest()[:8]
+                code = f"(yield ({v}, {litval}))"      # one key per literal: the sites of one function share it (digest {digest} of the path condition is shown, not keyed)
+                where_txt = "; ".join(conds)[:160]
+                if all_literal:
+                    res.ok("R17.10", fn.loc(y), fn.fq, code, f"every operand is the literal {litval}: the value of the expression is that literal")
+                    continue
+                res.decide(ctx, "R17.10", fn.loc(y), fn.fq, code,
+                           "only where the truth of the expression is all that is looked at" if ctx else
+                           f"[under {where_txt}; path {digest}] an and/or expression is replaced by `{litval}` wherever it stands: as a VALUE `a or b` is a or b, not a truth value "
+                           "(`y = x or 'default'` becomes `y = True`, `n = count and 0` becomes `n = False`)")
+    if n == 0:
+        raise AnalysisError("R17.10: no replacement of an and/or expression by a truth value found (anchor lost)")
+
+
+def _conds_of_17(n: ast.AST, stop: ast.AST) -> List[str]:
+    out = []
+    child, a = n, parent(n)
+    while a is not None and a is not stop:
+        if isinstance(a, ast.If):
+            # keyword names are dropped from the text: they can coincide with local names, which keys are normalised over
+            t = norm(a.test)
+            import re as _re
+            t = _re.sub(r"\b\w+=", "", t)
+            out.append(("" if child in a.body else "not ") + "(" + t + ")")
+        child, a = a, parent(a)
+    return list(reversed(out))[-2:]
+
+
+def _entails17(w, pa, test) -> bool:
+    from ..pathcond import entails
+    return entails(w.facts, pa.formula(test, w, False))
+
+
+def _latest_def_is(fn: Func, name: str, stmt: ast.AST, use: ast.AST) -> bool:
+    """the binding `stmt` of name is the textually last one before `use` (straight-line approximation inside one block)"""
+    from ..defuse import bindings
+    before = [s_ for s_, _d in bindings(fn).get(name, []) if getattr(s_, "lineno", 0) < getattr(use, "lineno", 0)]
+    return bool(before) and max(before, key=lambda s_: s_.lineno) is stmt
 
 
 # ------------------------------------------------------------------------------------------------ R17.9
